@@ -875,13 +875,21 @@ func genPrivate(r *Rng, idx int, tier string, step func(op string) string) {
 	}
 	private := r.Chance(70)
 	magnet := r.Chance(20)
-	o := step(fmt.Sprintf("new pl=%d files=%s private=%s magnet=%s pex=%s cfg.AllowedFastSet=0 cfg.MaxMetadataSize=40000",
-		l.pl, l.filesArg(), b01(private), b01(magnet), b01(r.Chance(80))))
+	ntrk := 0
+	if !magnet && r.Chance(50) {
+		ntrk = r.Range(1, 2)
+	}
+	o := step(fmt.Sprintf("new pl=%d files=%s private=%s magnet=%s pex=%s cfg.AllowedFastSet=0 cfg.MaxMetadataSize=40000 trackers=%d",
+		l.pl, l.filesArg(), b01(private), b01(magnet), b01(r.Chance(80)), ntrk))
 	if !strings.HasPrefix(o, "ok") {
 		return
 	}
 	isize := atoi(obsKV(o)["isize"])
 	step("magnet")
+	if ntrk > 0 && r.Chance(50) {
+		// the client restarts before the torrent was ever started: the resume record has the info but no bitfield
+		step("reload")
+	}
 	last := step("start")
 	var dpeers []*scriptPeer
 	nextK := 1
@@ -943,10 +951,18 @@ func genPrivate(r *Rng, idx int, tier string, step func(op string) string) {
 			do(fmt.Sprintf("msg p=%d t=port port=%d", p.k, r.Pick(0, 6881, 65535)))
 		case roll < 70:
 			do("magnet")
-		case roll < 76:
+		case roll < 73 && ntrk > 0:
+			do("reload")
+		case roll < 78:
 			do("stop")
 			for _, p := range dpeers {
 				p.closed = true
+			}
+			if ntrk > 0 {
+				do("waitstop")
+				if r.Chance(40) {
+					do("reload")
+				}
 			}
 			do("start")
 		default:
